@@ -3,6 +3,7 @@ package main
 // Forking symbolic interpreter over go/ssa.
 
 import (
+	"os"
 	"fmt"
 	"go/constant"
 	"go/token"
@@ -1170,6 +1171,14 @@ func (r *Run) unop(fr *Frame, x *ssa.UnOp) Value {
 					return r.fixSort(out, x.Type())
 				}
 			}
+		}
+		if os.Getenv("GOSYM_STACK") != "" {
+			defer func() {
+				if e := recover(); e != nil {
+					fmt.Fprintf(os.Stderr, "[deref failed] %v in %s at %s: %s\n", e, fr.info.name, r.curPos(), x.String())
+					panic(e)
+				}
+			}()
 		}
 		return r.fixSort(r.load(p), x.Type())
 	case token.NOT:
